@@ -371,6 +371,106 @@ class C10(Check):
         "numeric results are compared at 1e-6 relative + 1e-7 absolute, Newton TOL 1e-9",
     ]
 
+    # ------------------------------------------------------------------ translator: simulator-object state
+    def translate(self, ctx):
+        """Gen/RestartFields.lean: which attributes of the WNTRSimulator object the `while True` loop of run_sim (and the
+        methods it calls) rebinds / reads, which of them the prologue of run_sim (statements before the loop + the methods
+        they call, NOT __init__) assigns, and for which the assigned expression reads the network `self._wn`.  Extracted
+        with `ast` from wntr/sim/core.py as it is now; Props/C10.lean proves by `decide` that the loop rebinds only the
+        fields of Model/Restart.SimState, that everything the loop reads is rebuilt by every run_sim, and that the modelled
+        fields are rebuilt FROM THE NETWORK -- a new piece of simulator state that is not re-derived breaks these."""
+        import ast
+
+        path = os.path.join(vlib.REPO, "wntr", "sim", "core.py")
+        try:
+            tree = ast.parse(open(path).read())
+            cls = next(n for n in tree.body if isinstance(n, ast.ClassDef) and n.name == "WNTRSimulator")
+            methods = {n.name: n for n in cls.body if isinstance(n, ast.FunctionDef)}
+            rs = methods["run_sim"]
+            wi = next(i for i, n in enumerate(rs.body) if isinstance(n, ast.While))
+        except (StopIteration, KeyError, SyntaxError, OSError) as e:
+            raise vlib.BrokenTie("cannot locate WNTRSimulator.run_sim / its while loop in wntr/sim/core.py: %r" % (e,))
+
+        def chain(node):
+            """self.a.b[...] -> ['a', 'b'] (attribute path below `self`), else None"""
+            path_ = []
+            while isinstance(node, (ast.Subscript, ast.Attribute)):
+                if isinstance(node, ast.Attribute):
+                    path_.append(node.attr)
+                node = node.value
+            return list(reversed(path_)) if isinstance(node, ast.Name) and node.id == "self" else None
+
+        def targets(x):
+            tg = x.targets if isinstance(x, ast.Assign) else [x.target] if isinstance(x, (ast.AugAssign, ast.AnnAssign)) else []
+            return [e for t in tg for e in (t.elts if isinstance(t, (ast.Tuple, ast.List)) else [t])]
+
+        def mentions_wn(node):
+            return any(isinstance(y, ast.Attribute) and y.attr == "_wn" and isinstance(y.value, ast.Name) and y.value.id == "self" for y in ast.walk(node))
+
+        def calls(nodes):
+            return {x.func.attr for n in nodes for x in ast.walk(n)
+                    if isinstance(x, ast.Call) and isinstance(x.func, ast.Attribute) and isinstance(x.func.value, ast.Name)
+                    and x.func.value.id == "self" and x.func.attr in methods}
+
+        def closure(nodes):
+            seen, todo = set(), list(calls(nodes))
+            while todo:
+                m = todo.pop()
+                if m not in seen:
+                    seen.add(m)
+                    todo += list(calls(methods[m].body))
+            return seen
+
+        prologue, loop = rs.body[:wi], [rs.body[wi]]
+        pm, lm = closure(prologue), closure(loop)
+        loop_nodes = loop + [methods[m] for m in sorted(lm)]
+        stored, wn_stored, read = set(), set(), set()
+        for n in loop_nodes:
+            for x in ast.walk(n):
+                for e in targets(x):
+                    c = chain(e)
+                    if c:
+                        if c[0] == "_wn":
+                            wn_stored.add(".".join(c[1:]) or "_wn")
+                        else:
+                            stored.add(c[0])
+                if isinstance(x, ast.Attribute) and isinstance(x.value, ast.Name) and x.value.id == "self" and isinstance(x.ctx, ast.Load) \
+                        and x.attr not in methods:
+                    read.add(x.attr)
+        assigned, reads_wn = set(), set()
+        for holder, nodes in [(None, prologue)] + [(m, methods[m].body) for m in sorted(pm)]:
+            meth_wn = holder is not None and any(mentions_wn(n) for n in nodes)
+            for n in nodes:
+                for x in ast.walk(n):
+                    for e in targets(x):
+                        c = chain(e)
+                        if c and c[0] != "_wn" and len(c) == 1:
+                            assigned.add(c[0])
+                            val = getattr(x, "value", None)
+                            if (val is not None and mentions_wn(val)) or meth_wn:
+                                reads_wn.add(c[0])
+        init_only = set()
+        for x in ast.walk(methods["__init__"]):
+            for e in targets(x):
+                c = chain(e)
+                if c and len(c) == 1 and c[0] not in assigned:
+                    init_only.add(c[0])
+
+        def lst(name, xs, doc):
+            return "/-- %s -/\ndef %s : List String := [%s]\n" % (doc, name, ", ".join('"%s"' % v for v in sorted(xs)))
+
+        text = ("/- GENERATED by harness/props/c10.py (translate) from wntr/sim/core.py: class WNTRSimulator, method run_sim.\n"
+                "   Do not edit. -/\nnamespace Wntr.Gen.RestartFields\n\n"
+                + lst("storedInLoop", stored, "attributes of the simulator object that the `while True` loop of run_sim or a method it calls REBINDS (`self.x = …`, `self.x[…] = …`)")
+                + lst("wnStoredInLoop", wn_stored, "attributes of the network stored through `self._wn.… = …` in that code")
+                + lst("readInLoop", read, "attributes of the simulator object that code reads (methods excluded)")
+                + lst("assignedInPrologue", assigned, "attributes assigned by run_sim BEFORE the loop or by a method called from there (not `__init__`)")
+                + lst("prologueReadsWn", reads_wn, "… whose assigned expression (or assigning method) reads `self._wn`")
+                + lst("initOnly", init_only, "attributes assigned in `__init__` only")
+                + "\nend Wntr.Gen.RestartFields\n")
+        vlib.write_if_changed(os.path.join(vlib.GEN, "RestartFields.lean"), text)
+        ctx.cov["restart_fields"] = {"stored_in_loop": sorted(stored), "wn_stored_in_loop": sorted(wn_stored), "read_in_loop": len(read)}
+
     # ------------------------------------------------------------------ (a) model correspondence, paused
     def _pauses(self, rng, hyd, duration, maxn=3):
         nsteps = duration // hyd
